@@ -60,6 +60,12 @@ def main(argv):
             print("replay: %d of %d recorded instances still fail" % (len(still), len(want)))
         return core.finish(ctx, explanation, exhaustive=getattr(mod, "EXHAUSTIVE", None))
     except core.AnalysisError as e:
+        # rule instances decided before the unreadable construct stand: a definite violation is still a violation
+        known = {k["key"] for k in core.load_known().get("known", []) if k.get("property") == pid}
+        if any(f["key"] not in known for f in ctx.fails):
+            print("ANALYSIS-INCOMPLETE property=%s %s (the rule instances decided before this point are reported)" % (pid, e))
+            ctx.notes.append("analysis incomplete: %s" % e)
+            return core.finish(ctx, "INCOMPLETE RUN: %s" % e)
         print("ANALYSIS-ERROR property=%s %s" % (pid, e))
         return core.EXIT_ANALYSIS
     except Exception:
